@@ -44,18 +44,23 @@ BOUNDS = (
     "from {0,1,60,300,3600,86400,604800,2^31-1,2^32-1}, origins example. / sub.example.org., "
     "loaded relativized and absolute.  C09.roundtrip_styles: EXHAUSTIVE product of the "
     "lossless switches sorted x want_origin x default_ttl{None, most frequent TTL, unused "
-    "TTL} x deduplicate_names x justification{none, left, right} x chunking{default, 4/8, off} "
+    "TTL} x deduplicate_names x justification{none, all columns left, owner left + other columns "
+    "right} x chunking{default, 4/8, off} "
     "x want_generic x want_comments x omit_rdclass x relativize = 3 456 styles per zone on "
-    "3 zones x 2 relativizations (thorough: 24 x 2), plus 96 seeded styles on each further zone "
-    "(quick 12 zones, thorough 150); read back with the zone's origin and, when $ORIGIN is "
-    "emitted, also without one.  C09.roundtrip_api: all 16 keyword combinations.  "
+    "2 small zones (quick; 2^9 x 3 sub-product, generic styles sampled on the zone whose rdata "
+    "names are in-zone) / 4 zones x 2 relativizations (thorough, all 3 456), plus 32 (quick) / 96 "
+    "(thorough) seeded styles on each further zone (quick 14 zones, thorough 100; every 4th zone "
+    "has only out-of-zone names in its rdata so that the RFC 3597 form is exercised beyond F7, "
+    "every 4th a single TTL equal to the SOA minimum); read back with the zone's origin and, "
+    "when $ORIGIN is emitted, also without one.  C09.roundtrip_api: all 16 keyword combinations "
+    "of to_text and to_file.  "
     "C09.spellings/C09.model: 17 named re-spellings x every zone x 2 relativizations.  "
-    "C09.generate: 4 nibble templates, 6 fixed templates, quick 150 / thorough 6 000 seeded "
+    "C09.generate: 4 nibble templates, 7 fixed templates (one mixing two modifier forms), quick 300 / thorough 6 000 seeded "
     "$GENERATE lines (ranges <= 7 steps, offsets, widths 0..5, bases d o x X n N, optional TTL "
     "and class) against an independent expansion written from the BIND documentation.  "
     "C09.out_of_zone: 14 out-of-zone line shapes x position x relativization on every zone.  "
     "C09.cname_other: 10 other-data types x both orders x {adjacent, separated, via $GENERATE, "
-    "inherited owner} x relativization, and the invariant on every zone loaded anywhere in the "
+    "inherited owner, different case} x relativization, and the invariant on every zone loaded anywhere in the "
     "run.  Not covered: $INCLUDE (file system), lossy styles (omit_ttl, truncate_crypto, "
     "omit_final_dot, IDNA/UTF-8 output), CRLF line ends, zone classes other than IN.  Nothing "
     "here needs the `cryptography` package."
@@ -456,17 +461,18 @@ def _emit(R, clause, finding, replay):
 def run(R):
     C = _Ctx(R)
     rng = R.rng
-    nz_full = 2 if R.quick else 8
-    nz = 12 if R.quick else 150
+    nz_full = 2 if R.quick else 4
+    nz = 14 if R.quick else 100
     zones = []
     for i in range(nz):
         if i < nz_full:
-            size = 4 if (R.quick or i < 4) else 8
+            size = 4 if (R.quick or i < 2) else 8
         else:
             size = rng.choice([4, 6, 8, 10, 14] if R.quick else [4, 6, 8, 12, 16, 22, 30])
         # every 4th zone (1, 5, ...) has only out-of-zone names in its rdata, so that the
         # RFC 3597 generic form can round trip at all (see F7); every 4th (3, 7, ...) has one TTL
         zones.append(M.make_zone(rng, size, uniform_ttl=(i % 4 == 3), external_names=(i % 4 == 1)))
+    unloadable = set()
     styles = list(all_styles())
     if R.quick:
         # quick: the 2^9 x 3 product of DESIGN B7; the third value of the two remaining
@@ -487,6 +493,7 @@ def run(R):
                 R.sample("C09.model", {"records": len(zm["records"]), "origin": zm["origin"], "first_lines": M.write(zm, M.CANON).split("\n")[:4]})
             _emit(R, "C09.model", f, rp)
             if z is None:
+                unloadable.add((zi, rel))  # reported above; nothing to compare against
                 continue
             C.check_cname(z, rp, ("m", zi, rel))
             for name, sp in M.spellings(uniform).items():
@@ -548,7 +555,7 @@ def run(R):
         {"start": 1, "stop": 2, "step": 1, "lhs": "h$-${0,2,d}", "type": "A", "rhs": "10.0.1.$"},  # two different modifiers
         {"start": 1, "stop": 2, "step": 1, "lhs": "m$", "type": "CNAME", "rhs": "t$.${0,2,d}.example."},
     ]
-    ng = 150 if R.quick else 6000
+    ng = 300 if R.quick else 6000
     gens = fixed + [M.make_generate(rng) for _ in range(ng)]
     for gi, g in enumerate(gens):
         if R.deadline():
@@ -573,8 +580,10 @@ def run(R):
             R.note(f"styles: stopped at zone {zi}/{len(zones)} (budget)")
             break
         for rel in (True, False):
+            if (zi, rel) in unloadable:
+                continue
             if zi >= nz_full:
-                sts = [random_style(rng) for _ in range(96 if not R.quick else 24)]
+                sts = [random_style(rng) for _ in range(96 if not R.quick else 32)]
             elif not R.quick:
                 sts = styles
             elif zi == 0:
